@@ -9,6 +9,7 @@ package main
 // else equal) that yield the same sign bytes are a collision.
 
 import (
+	"bytes"
 	"crypto/sha256"
 	"crypto/sha512"
 	"encoding/hex"
@@ -24,6 +25,7 @@ import (
 	txtypes "github.com/cosmos/cosmos-sdk/types/tx"
 	"github.com/cosmos/cosmos-sdk/types/tx/signing"
 	authsigning "github.com/cosmos/cosmos-sdk/x/auth/signing"
+	"github.com/cosmos/cosmos-sdk/x/auth/migrations/legacytx"
 	"github.com/medibloc/panacea-core/v2/app"
 	didtypes "github.com/medibloc/panacea-core/v2/x/did/types"
 )
@@ -144,6 +146,28 @@ func (x *Exec) endSign(f []string) (string, string) {
 		must(err)
 		pkHex = tok(anyBz)
 		answer = "S " + hex.EncodeToString(bz)
+		// determinism clause: what a message returned as its sign bytes must not change when another message's are computed,
+		// and computing them again must give the same bytes
+		if m == signing.SignMode_SIGN_MODE_LEGACY_AMINO_JSON {
+			var raws, copies [][]byte
+			for _, msg := range x.cur.Top {
+				if lm, ok := msg.(legacytx.LegacyMsg); ok {
+					r := lm.GetSignBytes()
+					raws = append(raws, r)
+					copies = append(copies, append([]byte{}, r...))
+				}
+			}
+			for i := range raws {
+				if !bytes.Equal(raws[i], copies[i]) {
+					x.FlagN("C14-signbytes-not-stable", fmt.Sprintf("the sign bytes returned for message %d of the transaction changed when those of a later message were computed", i), 400)
+					break
+				}
+			}
+			bz2, err2 := txCfg.SignModeHandler().GetSignBytes(m, sd, b.GetTx())
+			if err2 != nil || !bytes.Equal(bz, bz2) {
+				x.FlagN("C14-signbytes-not-stable", "computing the sign bytes of the same transaction twice gave different bytes", 400)
+			}
+		}
 		// collision monitor
 		var id []string
 		var kinds []string
@@ -345,6 +369,59 @@ func genSignCases(r *RNG, thorough bool) []string {
 			}
 			one(joinSp(parts...))
 		}
+	}
+	// every message kind with each field changed in turn to another admissible value of the same length: a field that is
+	// left out of (or duplicated in) what is signed turns the base message and its variant into a collision
+	alt := func(v string) string {
+		switch v {
+		case A:
+			return C
+		case B:
+			return C
+		case "":
+			return "z"
+		}
+		bs := []byte(v)
+		bs[len(bs)-1] ^= 3 // 't'->'w', 'X'->'[' is not admissible: keep to letters
+		if !((bs[len(bs)-1] >= 'a' && bs[len(bs)-1] <= 'z') || (bs[len(bs)-1] >= 'A' && bs[len(bs)-1] <= 'Z')) {
+			bs[len(bs)-1] = 'q'
+		}
+		return string(bs)
+	}
+	render := func(kind string, a []string) string {
+		parts := []string{kind}
+		for _, v := range a {
+			parts = append(parts, toks(v))
+		}
+		return joinSp(parts...)
+	}
+	for _, bm := range base {
+		for i := range bm.args {
+			a := append([]string{}, bm.args...)
+			a[i] = alt(a[i])
+			one(render(bm.kind, a))
+		}
+		// two same-typed neighbours exchanged
+		for i := 0; i+1 < len(bm.args); i++ {
+			if bm.args[i] != bm.args[i+1] && bm.args[i] != "" && bm.args[i+1] != "" && (len(bm.args[i]) > 20) == (len(bm.args[i+1]) > 20) {
+				a := append([]string{}, bm.args...)
+				a[i], a[i+1] = a[i+1], a[i]
+				one(render(bm.kind, a))
+			}
+		}
+		// the same kind twice in one transaction, with values of equal length: [a,b] and [c,b] (and [b,a]) must all differ —
+		// sign bytes built in a buffer shared between calls would make the first entry a copy of the second
+		a0 := append([]string{}, bm.args...)
+		b0 := append([]string{}, bm.args...)
+		c0 := append([]string{}, bm.args...)
+		b0[0] = alt(a0[0])
+		c0[0] = alt(b0[0]) + ""
+		if c0[0] == a0[0] {
+			c0[0] = a0[0][:len(a0[0])-1] + "k"
+		}
+		emit([]string{render(bm.kind, a0), render(bm.kind, b0)}, "", toks(feeDenom)+":10", 3)
+		emit([]string{render(bm.kind, c0), render(bm.kind, b0)}, "", toks(feeDenom)+":10", 3)
+		emit([]string{render(bm.kind, b0), render(bm.kind, a0)}, "", toks(feeDenom)+":10", 3)
 	}
 	// several messages, memo, fee and sequence variations
 	emit([]string{joinSp("aol.CreateTopic", toks("t"), toks("d"), toks(A)), joinSp("aol.DeleteWriter", toks("t"), toks(B), toks(A))}, "memo", toks(feeDenom)+":10", 3)
